@@ -2,7 +2,7 @@
 // parameters are constructed and node values are computed; (2) invalid objects, foreign graphs,
 // foreign devices, out-of-range arguments on object-level entry points, with observable
 // snapshots before/after. One line per check: `ok <what>` or `FAIL <what> :: <detail>`.
-// usage: fault_drv <seed> <n_programs>
+// usage: fault_drv <seed> <n_programs>   |   fault_drv random <n_seeds>  (see random_mode)
 #include <primitiv/primitiv.h>
 #include <cstring>
 #include <functional>
@@ -231,7 +231,69 @@ static void invalid_objects() {
   std::cout << "D7 " << d7 << "\n";
 }
 
+
+// ---- mode `random`: allocation failure at every k of a program WITH random sources and a
+// two-output split; the retry must equal the never-failing run bit for bit (values of the
+// random nodes included) and leave the device's random stream at the same position.
+// usage: fault_drv random <n_seeds>.  Lines: `ok random ...` / `FAIL random ...`, RANDOM-SUMMARY.
+static std::vector<Node> build_random(unsigned kind, Device &dev) {
+  std::vector<Node> obs;
+  V xin(4); for (size_t i = 0; i < xin.size(); ++i) xin[i] = (float)((int)(i * 7 % 11) - 5) * 0.25f;
+  Node x = F::input<Node>(Shape({4}), xin, dev);
+  Node r1 = F::random::bernoulli<Node>(Shape({4}), 0.5f, dev);
+  std::vector<Node> s = F::split(F::concat({x, x + 1.0f}, 0), 0, 2);
+  Node r2 = F::random::uniform<Node>(Shape({4}), -1.0f, 1.0f, dev);
+  Node y;
+  switch (kind % 3) {
+    case 0: y = (s[0] * r1 + s[1]) * r2; break;
+    case 1: y = F::dropout(s[1], 0.5f, true) + s[0] * r2 + r1; break;          // dropout = one more random node
+    default: y = s[0] * r2 + F::random::normal<Node>(Shape({4}), 0.0f, 1.0f, dev) * r1 + s[1]; break;
+  }
+  obs.push_back(r1); obs.push_back(r2); obs.push_back(s[1]); obs.push_back(y); obs.push_back(F::sum(y, 0));
+  return obs;
+}
+static int random_mode(int nseeds) {
+  pvh::MemStats &m = pvh::mem();
+  for (int sd = 0; sd < nseeds; ++sd) for (unsigned kind = 0; kind < 3; ++kind) {
+    const std::string what = "random seed=" + std::to_string(sd) + " kind=" + std::to_string(kind);
+    std::vector<V> ref; V ref_stream; long nalloc;
+    {
+      pvh::CheckedNaive dev(100u + sd); Device::set_default(dev);
+      Graph g; Graph::set_default(g);
+      std::vector<Node> obs = build_random(kind, dev);
+      long before = m.total;
+      V z = obs.back().to_vector();                       // the request
+      nalloc = m.total - before;
+      for (Node &n : obs) ref.push_back(n.to_vector());   // memoised: no further draw
+      ref_stream = dev.random_uniform(Shape({3}), 0.0f, 1.0f).to_vector();   // stream position fingerprint
+    }
+    for (long k = 0; k < nalloc; ++k) {
+      pvh::CheckedNaive dev(100u + sd); Device::set_default(dev);
+      Graph g; Graph::set_default(g);
+      std::vector<Node> obs = build_random(kind, dev);
+      m.fail_at = m.total + k;
+      std::string r = outcome([&]() { obs.back().to_vector(); });
+      m.fail_at = -1;
+      if (r != "Error") { fail(what, "allocation failure k=" + std::to_string(k) + " surfaced as " + r); continue; }
+      bool good = true;
+      V z; std::string r2 = outcome([&]() { z = obs.back().to_vector(); });
+      if (r2 != "ok" || !same(z, ref.back())) { good = false; fail(what, "k=" + std::to_string(k) + ": retry of the request differs from the never-failing run (" + r2 + ")"); }
+      for (size_t i = 0; good && i < obs.size(); ++i) {
+        V v = obs[i].to_vector();
+        if (!same(v, ref[i])) { good = false; fail(what, "k=" + std::to_string(k) + ": node " + std::to_string(i) + " differs from the never-failing run after the retry"); }
+      }
+      if (good && !same(dev.random_uniform(Shape({3}), 0.0f, 1.0f).to_vector(), ref_stream)) { good = false; fail(what, "k=" + std::to_string(k) + ": random stream position differs after the retry"); }
+      if (good) { ok(what); }
+    }
+    std::cout << (fails ? "FAIL " : "ok ") << what << " allocations=" << nalloc << "\n";
+    if (m.guard_damage) { fail(what, "guard damage"); m.guard_damage = 0; }
+  }
+  std::cout << "RANDOM-SUMMARY ok=" << oks << " fail=" << fails << "\n";
+  return 0;
+}
+
 int main(int argc, char **argv) {
+  if (argc > 1 && std::string(argv[1]) == "random") return random_mode(argc > 2 ? std::stoi(argv[2]) : 3);
   unsigned seed = argc > 1 ? std::stoul(argv[1]) : 1;
   int n = argc > 2 ? std::stoi(argv[2]) : 12;
   std::mt19937 rng(seed);
